@@ -1,5 +1,5 @@
 From Coq Require Import List Bool ZArith NArith Lia.
-From PC Require Import Base.Outcome Base.Py Model.IndexedList.
+From PC Require Import Base.Outcome Base.Py Base.IlProg Gen.IndexedList Model.IndexedList.
 Import ListNotations.
 
 Lemma iget_iset d k v k' :
@@ -54,7 +54,7 @@ Proof.
 Qed.
 
 (* one step keeps the invariant *)
-Lemma step_inv s o : Inv s -> Inv (fst (step s o)).
+Lemma step_ref_inv s o : Inv s -> Inv (fst (step_ref s o)).
 Proof.
   intros H. destruct o as [x|xs|xs|k x|k x|k|k|k| |xs| | | | ]; simpl.
   - intro a. simpl. unfold addindex. rewrite iget_iset, spec_lookup_app. simpl.
@@ -81,9 +81,9 @@ Proof.
 Qed.
 
 (* the list component behaves as a plain list and the same outcome is reported *)
-Lemma step_refines_list s o :
-  Inv s -> items (fst (step s o)) = fst (list_step (items s) o)
-           /\ snd (step s o) = snd (list_step (items s) o).
+Lemma step_ref_refines_list s o :
+  Inv s -> items (fst (step_ref s o)) = fst (list_step (items s) o)
+           /\ snd (step_ref s o) = snd (list_step (items s) o).
 Proof.
   intros H. destruct o as [x|xs|xs|k x|k x|k|k|k| |xs| | | | ]; simpl; try (split; reflexivity).
   - rewrite (position_spec s k H). destruct (spec_position _ _); simpl; split; reflexivity.
@@ -103,7 +103,7 @@ Proof.
 Qed.
 
 (* an operation that raises leaves list and dict exactly as they were *)
-Lemma step_failed_noop s o e : snd (step s o) = Raise e -> fst (step s o) = s.
+Lemma step_ref_failed_noop s o e : snd (step_ref s o) = Raise e -> fst (step_ref s o) = s.
 Proof.
   destruct o as [x|xs|xs|k x|k x|k|k|k| |xs| | | | ]; simpl; try discriminate.
   - destruct (position s k); simpl; [discriminate|reflexivity].
@@ -119,6 +119,75 @@ Proof.
     destruct (pos_of_uid _ _); simpl; [discriminate|reflexivity].
   - intros _. reflexivity.
 Qed.
+
+(* ------------------------------------------------------------------------- *)
+(* the interpreter of the generated programs computes the hand-written reading *)
+
+Lemma find_index_bound {A} (p : A -> bool) l : forall n, find_index p l = Some n -> (n < length l)%nat.
+Proof.
+  induction l as [|x l IH]; intros n H; simpl in H; [discriminate|].
+  destruct (p x).
+  - injection H as <-. simpl. lia.
+  - destruct (find_index p l) as [m|]; simpl in H; [|discriminate].
+    injection H as <-. simpl. specialize (IH m eq_refl). lia.
+Qed.
+
+Lemma norm_index_of_nat len n : (n < len)%nat -> norm_index len (Z.of_nat n) = Some n.
+Proof.
+  intro H. unfold norm_index.
+  destruct (0 <=? Z.of_nat n) eqn:E1; [|lia].
+  destruct (Z.of_nat n <? Z.of_nat len) eqn:E2; [|lia].
+  f_equal. lia.
+Qed.
+
+Ltac il_cbn :=
+  cbn [run_list exec exec_list finish with_key with_it regs0 consume set_pos set_it set_tgt set_ret
+       r_key r_pos r_obj r_it r_tgt r_ret it_content it_oneshot it_fails items index init
+       step_ref caught_b existsb exn_eqb orb fold_left app].
+
+Theorem step_eq s o : step s o = step_ref s o.
+Proof.
+  destruct s as [l d].
+  destruct o as [x|xs|xs|k x|k x|k|k|k| |xs| | | | ]; unfold step, reassign, run_prog;
+    cbv [prog_init prog_reindex prog_append prog_extend prog_iadd prog_insert prog_pop prog_remove
+         prog_setitem prog_delitem prog_clear prog_reverse];
+    il_cbn.
+  - reflexivity.
+  - reflexivity.
+  - reflexivity.
+  - destruct (position (IL l d) k); il_cbn; reflexivity.
+  - destruct (position (IL l d) k) as [z|e]; il_cbn; [|reflexivity].
+    destruct (norm_index (length l) z); il_cbn; reflexivity.
+  - destruct (position (IL l d) k) as [z|e]; il_cbn; [|reflexivity].
+    destruct (norm_index (length l) z); il_cbn; reflexivity.
+  - destruct (position (IL l d) _) as [z|e]; il_cbn; [|reflexivity].
+    destruct (norm_index (length l) z) as [n|]; il_cbn; [|reflexivity].
+    destruct (nth_error l n); il_cbn; reflexivity.
+  - destruct k as [z|a|x]; il_cbn.
+    + reflexivity.
+    + destruct (iget d a) as [u|]; il_cbn; [|reflexivity].
+      destruct (pos_of_uid l u) as [n|] eqn:E; il_cbn; [|reflexivity].
+      rewrite norm_index_of_nat by (eapply find_index_bound; exact E). il_cbn. reflexivity.
+    + destruct (pos_of_uid l (ouid x)) as [n|] eqn:E; il_cbn; [|reflexivity].
+      rewrite norm_index_of_nat by (eapply find_index_bound; exact E). il_cbn. reflexivity.
+  - reflexivity.
+  - reflexivity.
+  - reflexivity.
+  - reflexivity.
+  - reflexivity.
+  - reflexivity.
+Qed.
+
+Lemma step_inv s o : Inv s -> Inv (fst (step s o)).
+Proof. rewrite step_eq. apply step_ref_inv. Qed.
+
+Lemma step_refines_list s o :
+  Inv s -> items (fst (step s o)) = fst (list_step (items s) o)
+           /\ snd (step s o) = snd (list_step (items s) o).
+Proof. rewrite step_eq. apply step_ref_refines_list. Qed.
+
+Lemma step_failed_noop s o e : snd (step s o) = Raise e -> fst (step s o) = s.
+Proof. rewrite step_eq. apply step_ref_failed_noop. Qed.
 
 Lemma run_inv ops : forall s, Inv s -> Inv (run s ops).
 Proof.
